@@ -24,6 +24,7 @@ import numpy as np
 
 from vlib.core import PropertyCheck, TranslatorError
 from translate import decomp, devices
+from props import _fresh
 from props.c03 import G, PI8, RESOLVABLE, OTHERS, PARAM, build_circuit, parse_model, same_gates, aslist
 
 DEVS = ["LinearSpinChain", "CircularSpinChain", "SCQubits", "DispersiveCavityQED"]
@@ -88,15 +89,15 @@ class RG(G):
 CALLS = []      # every transpile call of this process, in order (witnesses)
 
 
-def impl_transpile(dev, N, gates, qc=None):
-    """-> (verdict, transpiled circuit | None, input circuit | None)"""
+def impl_transpile(dev, N, gates, qc=None, M=None):
+    """-> (verdict, transpiled circuit | None, input circuit | None); the processor has M qubits (default N = qc.N)"""
     if qc is None:
         try:
             qc = raw_circuit(N, gates)
         except Exception as e:
             return "unconstructible:" + type(e).__name__, None, None
-    CALLS.append(wit(dev, N, gates))
-    proc = processor(dev, N)
+    CALLS.append(wit(dev, N, gates, M))
+    proc = processor(dev, N if M is None else M)
     try:
         r = proc.transpile(qc)
     except ValueError as e:
@@ -115,7 +116,7 @@ def impl_transpile(dev, N, gates, qc=None):
     return "ok", r, qc
 
 
-MODEL_ERR = {"err route:shape": "err index", "err route:value": "err value", "err route:notimpl": "err notimpl",
+MODEL_ERR = {"err size": "err value", "err route:shape": "err index", "err route:value": "err value", "err route:notimpl": "err notimpl",
              "err decomp:index": "err index", "err decomp:cannotResolve": "err cannotResolve",
              "err decomp:notSufficient1q": "err notSufficient1q", "err decomp:invalid2q": "err invalid2q"}
 
@@ -138,8 +139,17 @@ def shape_ok(N, g):
     return len(g[1]) == nt and len(g[2]) == nc and len(set(qs)) == len(qs) and all(0 <= q < N for q in qs)
 
 
-def wit(dev, N, gates):
-    return {"dev": dev, "N": N, "gates": [[g.name, list(g.t), list(g.c), g.value()] for g in gates]}
+def in_class(w):
+    """the quantifier of the property: library gates (the resolvable ones and the other gate classes of the library;
+    not RZX, which no rule knows) as their classes build them, on distinct in-range qubits"""
+    return all(g[0] in RESOLVABLE + OTHERS and shape_ok(w["N"], g) for g in w["gates"])
+
+
+def wit(dev, N, gates, M=None):
+    w = {"dev": dev, "N": N, "gates": [[g.name, list(g.t), list(g.c), g.value()] for g in gates]}
+    if M is not None and M != N:
+        w["M"] = M            # processor.num_qubits when it differs from qc.N
+    return w
 
 
 def gates_of(w):
@@ -181,7 +191,7 @@ def check_property(w):
     for k, c in enumerate(w["history"]):
         f, d, prev = check_single(c, prev if c.get("reuse") else None)
         if f:
-            return True, f"call {k + 1} of {n} made in one process ({c['dev']}({c['N']})): " + d
+            return True, f"call {k + 1} of {n} made in one process ({c['dev']}({c.get('M', c['N'])})): " + d
     return False, f"all {n} calls meet the property"
 
 
@@ -192,12 +202,13 @@ def check_single(w, qc=None):
 
 def _check_single(w, qc0):
     dev, N = w["dev"], w["N"]
-    if dev not in DEVS or not (1 <= N <= 8) or not buildable(dev, N):
+    M = w.get("M", N)
+    if dev not in DEVS or not (1 <= N <= 8) or not (1 <= M <= 8) or not buildable(dev, M):
         return False, "outside the property's class (device / register size)", None
-    if not all(shape_ok(N, g) for g in w["gates"]):
+    if not in_class(w):
         return False, "outside the property's class (not a library gate on distinct in-range qubits)", None
-    native = list(processor(dev, N).native_gates)
-    st, r, qc = impl_transpile(dev, N, gates_of(w), qc0)
+    native = list(processor(dev, M).native_gates)
+    st, r, qc = impl_transpile(dev, N, gates_of(w), qc0, M)
     if qc is None:
         return False, f"not constructible ({st})", None
     bad = [g[0] for g in w["gates"] if not expressible(dev, g[0], native)]
@@ -205,6 +216,8 @@ def _check_single(w, qc0):
     if st != "ok":
         if bad:
             return False, f"refused ({st}): {sorted(set(bad))} cannot be expressed in {native}", qc
+        if N > M:
+            return False, f"refused ({st}): the circuit has {N} qubits, the processor {M}", qc
         return True, f"a circuit of expressible gates is refused: {st}", qc
     names = sorted({g.name for g in r.gates} - allowed)
     if names:
@@ -212,9 +225,12 @@ def _check_single(w, qc0):
             (f" (inexpressible input gates {sorted(set(bad))} were not refused)" if bad else ""), qc
     for g in r.gates:
         qs = aslist(g.controls) + aslist(g.targets)
+        if any(q >= M for q in qs):
+            return True, (f"{g.name} on qubits {qs} in the transpiled circuit: {dev}({M}) has no qubit {max(qs)} "
+                          f"(a circuit on {N} qubits was not refused)"), qc
         for a, b in itertools.combinations(qs, 2):
-            if not coupled(dev, N, a, b):
-                return True, (f"{g.name} on qubits {qs} in the transpiled circuit: {a} and {b} are not coupled on {dev}({N}) "
+            if not coupled(dev, M, a, b):
+                return True, (f"{g.name} on qubits {qs} in the transpiled circuit: {a} and {b} are not coupled on {dev}({M}) "
                               f"[{TOPOLOGY[dev]} topology]"), qc
     if N <= 5:
         try:
@@ -350,6 +366,19 @@ def systematic_histories(N):
                         ("LinearSpinChain", N, [p2("SWAP", a, b)]), ("LinearSpinChain", N, [p2("ISWAP", b, a)])]
 
 
+def size_cases():
+    """(device, qc.N, gates, processor size): circuits on fewer qubits than the processor, and on one more"""
+    for dev in DEVS:
+        for M in range(2, 6):
+            for N in list(range(2, M)) + [M + 1]:
+                for name in ("CNOT", "CSIGN", "SWAP", "ISWAP"):
+                    for a, b in itertools.permutations(range(N), 2):
+                        yield dev, N, [p2(name, a, b)], M
+                if N >= 3:
+                    yield dev, N, [placed("TOFFOLI", (N - 1, 0, 1))], M
+                    yield dev, N, [p2("CNOT", 0, N - 1), placed("SNOT", (1,)), p2("ISWAP", N - 1, 0)], M
+
+
 def hwit(calls):
     out = []
     for c in calls:
@@ -362,51 +391,20 @@ def hwit(calls):
 
 def fresh_fails(w, timeout=300):
     """check_property(w) in a FRESH interpreter (same tree, nothing transpiled before) -> (fails | None, detail)"""
-    code = ("import sys, json; from props import c13; w = json.load(sys.stdin); "
-            "print('\\n@@' + json.dumps(list(c13.check_property(w))))")
-    try:
-        r = subprocess.run([sys.executable, "-W", "ignore", "-c", code], input=json.dumps(w), capture_output=True,
-                           text=True, env=dict(os.environ), timeout=timeout)
-        line = [ln for ln in r.stdout.splitlines() if ln.startswith("@@")][-1]
-        f, d = json.loads(line[2:])
-        return bool(f), d
-    except Exception as e:
-        return None, f"fresh interpreter: {type(e).__name__}"
+    return _fresh.fresh_fails("c13", w, timeout)
 
 
-def reproducible(w, ncalls, budget=12):
-    """a witness that failed in this process -> one that fails from scratch: itself, or the shortest suffix of the
-    call log (ending with it) that fails in a fresh interpreter, single calls dropped greedily"""
-    f, _ = fresh_fails(w)
-    if f or f is None:
-        return w
+def reproducible(w, ncalls, budget=26):
+    """a witness that failed in this process -> one that fails when replayed from scratch (see props/_fresh.py);
+    only calls inside the property's class are taken from the call log"""
     own = w["history"] if "history" in w else [w]
-    log = CALLS[:ncalls]
     strip = lambda c: {k: v for k, v in c.items() if k != "reuse"}
-    base = log[:len(log) - len(own)] if [strip(c) for c in log[len(log) - len(own):]] == [strip(c) for c in own] else log
-    k, found, used = 1, None, 1
-    while used < budget and base:
-        pre = base[-k:]
-        f, _ = fresh_fails({"history": pre + own})
-        used += 1
-        if f:
-            found = pre
-            break
-        if k >= len(base):
-            break
-        k = min(2 * k, len(base)) if k < 2048 else len(base)
-    if found is None:
-        return w
-    i = 0
-    while i < len(found) and used < budget + 10 and len(found) > 1:
-        trial = found[:i] + found[i + 1:]
-        f, _ = fresh_fails({"history": trial + own})
-        used += 1
-        if f:
-            found = trial
-        else:
-            i += 1
-    return {"history": found + own}
+    log = CALLS[:ncalls]
+    if [strip(c) for c in log[len(log) - len(own):]] == [strip(c) for c in own]:
+        log = log[:len(log) - len(own)]
+    log = [c for c in log if in_class(c)]
+    keys = {(c["dev"], c["N"]) for c in own}
+    return _fresh.reproducible("c13", w, log, lambda c: (c["dev"], c["N"]) in keys, budget)
 
 
 class C13(PropertyCheck):
@@ -418,7 +416,10 @@ class C13(PropertyCheck):
         "transpile_native", "transpile_coupled", "transpile_coupled_partial", "transpile_refuses", "transpile_accepts", "routing_stage_den",
         "transpile_den", "transpile_den_partial",
         "C13_counterexample_toffoli_linear", "C13_counterexample_toffoli_ring", "C13_counterexample_fredkin_scqubits",
-        "toffoli_repaired")]
+        "toffoli_repaired",
+        "size_tie", "transpileOn_eq", "smallSpec_valid", "transpile_coupled_device", "transpile_refuses_large",
+        "transpile_den_device", "transpile_coupled_device_partial", "C13_counterexample_small_circuit_on_ring",
+        "C13_counterexample_large_circuit")]
     technique = ("Lean 4: composition of the routing model (C07) and the decomposition model (C03) exactly as "
                  "ModelProcessor.transpile composes the code; device tables and the shape of transpile regenerated from the "
                  "source with ast; theorems for all register sizes and all circuits by induction through the stages; "
@@ -459,7 +460,11 @@ class C13(PropertyCheck):
     # ---------------------------------------------------------------------------------
     def regenerate(self, ctx):
         decomp.regenerate(ctx.seed)                 # Gen/DecompTables.lean (shared with C03)
-        self.devs, self.pre, _ = devices.regenerate()
+        self.devs, (self.pre, self.guard), _ = devices.regenerate()
+        ctx.log("source shape: transpile %s a circuit on more qubits than the processor; CircularSpinChain routes a "
+                "smaller circuit on the %s chain (fixes/C13-2 %s)" % (
+                    "refuses" if self.guard else "does not refuse", self.devs["circularSpinChain"][3],
+                    "applied" if self.guard else "not applied"))
         return ["DecompTables.lean", "DeviceTables.lean"]
 
     # ---------------------------------------------------------------------------------
@@ -469,26 +474,40 @@ class C13(PropertyCheck):
         from qutip_qip.transpiler.chain import to_chain_structure
         ans = ctx.driver("drv_transpile").run(["tables"])[0].split()
         model = dict(a.split("=", 1) for a in ans)
-        for dev in DEVS:
-            p = processor(dev, 4)
-            nat = "None" if p.native_gates is None else ",".join(p.native_gates)
-            qc = QubitCircuit(4)
+
+        def live_topo(p, n):
+            qc = QubitCircuit(n)
             qc.add_gate("CNOT", controls=0, targets=3)
             qc.add_gate("ISWAP", targets=[3, 1])
             try:
                 got = [(g.name, aslist(g.targets), aslist(g.controls)) for g in p.topology_map(qc).gates]
             except NotImplementedError:
-                got = None
-            topo = "?"
-            if got is None:
-                topo = "none"
-            else:
-                for s in ("linear", "circular", "ring"):
-                    ref = [(g.name, aslist(g.targets), aslist(g.controls)) for g in to_chain_structure(qc, s).gates]
-                    if ref == got:
-                        topo = s if s != "ring" else "other"
-                        break
-            live = f"{nat}:{topo}"
+                return "none"
+            for s in ("linear", "circular", "ring"):
+                ref = [(g.name, aslist(g.targets), aslist(g.controls)) for g in to_chain_structure(qc, s).gates]
+                if ref == got:
+                    return s if s != "ring" else "other"
+            return "?"
+
+        # the size check of transpile
+        big = QubitCircuit(3)
+        big.add_gate("X", targets=[2])
+        try:
+            processor("LinearSpinChain", 2).transpile(big)
+            live_guard = "0"
+        except ValueError:
+            live_guard = "1"
+        except Exception as e:
+            live_guard = type(e).__name__
+        inp = {"tables": "size check of transpile"}
+        res.case(inp, nontrivial=True, tags=["tables"])
+        if model.get("guard") != live_guard:
+            res.disagree(inp, model.get("guard"), live_guard, "regenerated flag sizeGuard vs live transpile",
+                         {"dev": "LinearSpinChain", "N": 3, "M": 2, "gates": [["CNOT", [2], [0], None]]})
+        for dev in DEVS:
+            p = processor(dev, 4)
+            nat = "None" if p.native_gates is None else ",".join(p.native_gates)
+            live = f"{nat}:{live_topo(p, 4)}:{live_topo(processor(dev, 5), 4)}"
             inp = {"tables": dev}
             res.case(inp, nontrivial=True, tags=["tables"])
             if model.get(dev) != live:
@@ -496,18 +515,22 @@ class C13(PropertyCheck):
                              {"dev": dev, "N": 4, "gates": [["TOFFOLI", [2], [0, 1], None]]})
 
     @staticmethod
-    def _line(dev, N, gs):
-        return f"transpile dev={dev} n={N} gates={';'.join(g.enc() for g in gs) if gs else '-'}"
+    def _line(dev, N, gs, M=None):
+        m = "" if M is None else f" m={M}"
+        return f"transpile dev={dev} n={N}{m} gates={';'.join(g.enc() for g in gs) if gs else '-'}"
 
-    def _one_call(self, dev, N, gs, o, qc=None):
+    def _one_call(self, dev, N, gs, o, qc=None, M=None):
         """model answer `o` against one transpile call -> (model verdict, model gates, input circuit, None | (model, impl, what))"""
         symvals = {g.sym: g.val for g in gs if g.sym is not None}
         st, mg = parse_model(o, symvals)
         st = MODEL_ERR.get(st.strip(), st.strip())
-        before = None if qc is None else [(g.name, aslist(g.targets), aslist(g.controls), g.arg_value) for g in qc.gates]
-        ist, r, qc = impl_transpile(dev, N, gs, qc)
         if qc is None:
-            return st, mg, None, None
+            try:
+                qc = raw_circuit(N, gs)
+            except Exception:
+                return st, mg, None, None
+        before = [(g.name, aslist(g.targets), aslist(g.controls), g.arg_value) for g in qc.gates]
+        ist, r, qc = impl_transpile(dev, N, gs, qc, M)
         bad = None
         if st != ist:
             bad = (st, ist, "verdict of transpile")
@@ -522,18 +545,22 @@ class C13(PropertyCheck):
                     bad = ("control_value None or all-ones, no classical condition, label = angle", fd,
                            "fields of an emitted gate object")
                     break
-        if bad is None and before is not None and before != [
+        if bad is None and before != [
                 (g.name, aslist(g.targets), aslist(g.controls), g.arg_value) for g in qc.gates]:
             bad = ("input circuit unchanged", "input circuit changed", "transpile changed its input circuit")
         return st, mg, qc, bad
 
     def _run_cases(self, ctx, res, cases, kind, tag_of=None):
-        lines = [self._line(dev, N, gs) for (dev, N, gs) in cases]
+        """cases: (device, qc.N, gates[, processor size])"""
+        cases = [c if len(c) == 4 else (c[0], c[1], c[2], None) for c in cases]
+        lines = [self._line(dev, N, gs, M) for (dev, N, gs, M) in cases]
         outs = ctx.driver("drv_transpile").run(lines)
-        for k, ((dev, N, gs), o) in enumerate(zip(cases, outs)):
-            st, mg, qc, bad = self._one_call(dev, N, gs, o)
+        for k, ((dev, N, gs, M), o) in enumerate(zip(cases, outs)):
+            st, mg, qc, bad = self._one_call(dev, N, gs, o, None, M)
             ncalls = len(CALLS)
             inp = {"dev": dev, "N": N, "gates": [g.js() + ([1] if getattr(g, "raw", False) else []) for g in gs]}
+            if M is not None:
+                inp["M"] = M
             if qc is None:
                 continue
             rewritten = st != "ok" or [(n, t, c) for (n, t, c, _) in mg] != [(g.name, g.t, g.c) for g in gs]
@@ -542,7 +569,7 @@ class C13(PropertyCheck):
                      tags=[f"dev={dev}", f"N={N}", f"verdict={st}", f"len={min(len(gs), 6)}", f"maxarity={nq}", kind]
                      + ([] if tag_of is None else [tag_of[k]]))
             if bad is not None:
-                w, what = wit(dev, N, gs), bad[2]
+                w, what = wit(dev, N, gs, M), bad[2]
                 if len(res.disagreements) < 3 and check_property(w)[0]:
                     w2 = reproducible(w, len(CALLS))
                     if w2 is not w:
@@ -607,6 +634,12 @@ class C13(PropertyCheck):
         self._run_cases(ctx, res, cases, "multi", kinds)
         hists = [(kind, h) for N in range(2, 6) for kind, h in systematic_histories(N)]
         self._run_histories(ctx, res, hists)
+        # the circuit's register against the processor's
+        sz = list(size_cases())
+        self._run_cases(ctx, res, sz, "sizes", ["sizes=" + ("smaller" if c[1] < c[3] else "larger") for c in sz])
+        res.notes.append(f"sizes: {len(sz)} circuits with qc.N != processor.num_qubits (every placement of CNOT/CSIGN/SWAP/"
+                         "ISWAP on 2..M-1 and M+1 qubits, M = 2..5, 4 devices); source shape: size check "
+                         + ("present" if getattr(self, "guard", False) else "absent"))
         res.notes.append(f"systematic: {len(cases)} circuits that use one pair of qubits more than once (every pair of every "
                          f"register 2-5 qubits x 4 devices: both orientations, repeats, other names, exchange before/after "
                          f"controlled, a three-qubit gate after a CNOT on two of its qubits); {len(hists)} histories of 3-5 "
@@ -655,6 +688,34 @@ class C13(PropertyCheck):
                 return False, "passes from scratch (failed only after earlier calls of this process: " + d + ")"
         return f, d
 
+    def _in_theorem_class(self, w):
+        """While the source has no size check (fixes/C13-2 not applied) the theorem for it
+        (transpile_coupled_device_partial) excludes circuits larger than the processor and circuits smaller than a
+        ring; the finding is recorded and replayed on its own."""
+        if getattr(self, "guard", None) is None:
+            try:
+                _, (_, self.guard) = devices.extract_all()
+            except TranslatorError:
+                self.guard = True          # unrecognised source: strict reading
+        if self.guard:
+            return True
+        for c in (w["history"] if "history" in w else [w]):
+            M, N = c.get("M", c["N"]), c["N"]
+            if N > M or (N < M and c["dev"] == "CircularSpinChain"):
+                return False
+        return True
+
+    def finding_matches(self, witness, finding):
+        if finding.get("class") == "circuit-size-differs-from-processor":
+            cs = witness["history"] if "history" in witness else [witness]
+            return any(c.get("M", c["N"]) != c["N"] for c in cs)
+        return witness == finding.get("witness")
+
+    def _sizes(self):
+        for dev, N, gs, M in size_cases():
+            if M <= 4 and gs[0].name in ("CNOT", "ISWAP", "TOFFOLI"):
+                yield wit(dev, N, gs, M)
+
     def _systematic(self):
         """three-qubit gates first (the known weak spot), then two-qubit gates at every distance"""
         for name in ("TOFFOLI", "FREDKIN"):
@@ -668,6 +729,7 @@ class C13(PropertyCheck):
                     for qs in itertools.permutations(range(N), 2):
                         yield wit(dev, N, [placed(name, qs)])
         yield from self._multi()
+        yield from self._sizes()
 
     def _multi(self, maxN=5):
         """both orientations of every pair in one circuit, and in consecutive calls"""
@@ -694,6 +756,8 @@ class C13(PropertyCheck):
     def oracle_search(self, ctx, budget_s):
         t0 = time.time()
         for w in self._systematic():
+            if not self._in_theorem_class(w):
+                continue
             f, d = check_property(w)
             if f:
                 yield reproducible(w, len(CALLS)), d
@@ -715,12 +779,14 @@ class C13(PropertyCheck):
                     f, d = check_property(w)
                     if f and (name, dev) not in seen_kind:
                         seen_kind.add((name, dev))
-                        yield reproducible(w, len(CALLS), budget=8), d
+                        yield reproducible(w, len(CALLS)), d
         n = 0
-        for w in self._multi(4):
+        for w in itertools.chain(self._multi(4), self._sizes()):
+            if not self._in_theorem_class(w):
+                continue
             f, d = check_property(w)
             if f:
-                yield reproducible(w, len(CALLS), budget=8), d
+                yield reproducible(w, len(CALLS)), d
                 n += 1
                 if n >= 2:
                     break
@@ -728,7 +794,7 @@ class C13(PropertyCheck):
             w = self._rand_witness(ctx.rng)
             f, d = check_property(w)
             if f:
-                yield reproducible(w, len(CALLS), budget=8), d
+                yield reproducible(w, len(CALLS)), d
 
 
 def devices_native(dev):
